@@ -291,6 +291,24 @@ pub fn run(ctx: &Ctx) -> (&'static str, &'static str) {
     let all2: Vec<usize> = (0..e2.len()).collect();
     let ks2: Vec<usize> = [0, 1, 2, 3, 4, 5, 1000001].iter().cloned().chain(wide_powers()).collect();
     ring_checks::<Fq2, Q2>(ctx, "Fq2", &e2, &all2, q2_of, frob2, &ks2, show2);
+    // Fq2 over the LIMB-PATTERN alphabet (coefficients whose in-memory residue has saturated limbs / limbs equal to the limbs of
+    // q, in up to three runs): unary operations on ALL pairs (a, b) as a + b u (so c0 - c1, c0 + c1 inside square and the
+    // Karatsuba products meet every pair), binary operations on all pairs of the elements (a, a') with a' the next pattern
+    // (so every pair of patterns meets in coordinate 0 and in coordinate 1 of add / sub / mul)
+    let limb_vals: Vec<Q1> = alpha::values_of_residues(q, 6, &alpha::limb_pattern_residues(q, 6, ctx.tier.pick(2, 3), false)).into_iter().map(Q1::new).collect();
+    {
+        let nl = limb_vals.len();
+        let mut e2l: Vec<(Fq2, Q2)> = Vec::with_capacity(nl * nl);
+        for a in &limb_vals {
+            for b in &limb_vals {
+                let r = Q2::new(vec![a.clone(), b.clone()]);
+                e2l.push((fq2_of(&r), r));
+            }
+        }
+        let diag: Vec<usize> = (0..nl).map(|i| i * nl + (i + 1) % nl).collect();
+        ctx.extra("Fq2.limb_patterns: Fq alphabet size / Fq2 elements / elements in the binary sweep", json!([nl, e2l.len(), diag.len()]));
+        ring_checks::<Fq2, Q2>(ctx, "Fq2.limb_patterns", &e2l, &diag, q2_of, frob2, &[1], show2);
+    }
     // Fq2 specifics: norm, mul_by_nonresidue
     ctx.sweep(
         "Fq2.specific",
@@ -322,6 +340,10 @@ pub fn run(ctx: &Ctx) -> (&'static str, &'static str) {
     let mut c6 = masked(6, &masks6, &[small[..6].to_vec(), seeded[..6].to_vec()]);
     for _ in 0..ctx.tier.pick(8, 32) {
         c6.push((0..6).map(|_| Q1::new(alpha::rand_below(&mut rng, q))).collect());
+    }
+    // coefficients cycling through the limb-pattern alphabet
+    for k in 0..ctx.tier.pick(24usize, 120) {
+        c6.push((0..6).map(|j| limb_vals[(k * 7 + j * (k % 5 + 1)) % limb_vals.len()].clone()).collect());
     }
     let mut seen = HashSet::new();
     c6.retain(|v| seen.insert(v.clone()));
@@ -391,6 +413,9 @@ pub fn run(ctx: &Ctx) -> (&'static str, &'static str) {
     }
     for _ in 0..ctx.tier.pick(16, 512) {
         c12.push((0..12).map(|_| Q1::new(alpha::rand_below(&mut rng, q))).collect());
+    }
+    for k in 0..ctx.tier.pick(24usize, 200) {
+        c12.push((0..12).map(|j| limb_vals[(k * 11 + j * (k % 7 + 1)) % limb_vals.len()].clone()).collect());
     }
     let mut seen = HashSet::new();
     c12.retain(|v| seen.insert(v.clone()));
